@@ -1,4 +1,5 @@
 import Solvor.Net.Lemmas
+import Solvor.Net.RatLemmas
 /-!
 Net: the property theorems of C15 (helper lemmas are in `Lemmas.lean` / `RatLemmas.lean`).
 -/
@@ -61,5 +62,181 @@ example : IsTransversal [0, 1, 2, 3] (fun u w => (u, w) == (1, 0) || (u, w) == (
     · exact ⟨2, by simp, h2 1 (by decide)⟩
     · exact ⟨2, by simp, Reach.refl _⟩
     · exact ⟨3, by simp, Reach.refl _⟩
+
+/-! ## T-model: one PageRank iteration at `Rat` -/
+
+/-- C15 [C] `pagerank_step_nonneg`: with `0 ≤ damping ≤ 1`, one iteration of the mirror (dangling
+redistribution and duplicate neighbours included) maps non-negative scores to non-negative scores. -/
+theorem pagerank_step_nonneg (G : Graph) (d : Rat) (s : Nat → Rat) (hd0 : 0 ≤ d) (hd1 : d ≤ 1)
+    (hs : ∀ u ∈ G.nodes, 0 ≤ s u) : ∀ v, 0 ≤ prStep ratOps G d s v := by
+  intro v
+  rw [prStep_rat]
+  have hn : (0 : Rat) ≤ (G.nodes.length : Rat) := by exact_mod_cast Nat.zero_le _
+  have h1 : 0 ≤ (1 - d) / (G.nodes.length : Rat) := div_nonneg (by linarith) hn
+  have h2 : 0 ≤ ((prIncoming G v).map fun u => s u / (outCount G u : Rat)).sum := by
+    apply List.sum_nonneg
+    intro x hx
+    obtain ⟨u, hu, rfl⟩ := List.mem_map.1 hx
+    have hu' : u ∈ G.nodes := by
+      unfold prIncoming at hu
+      obtain ⟨a, ha, hua⟩ := List.mem_flatMap.1 hu
+      obtain ⟨_, _, rfl⟩ := List.mem_map.1 hua
+      exact ha
+    exact div_nonneg (hs u hu') (by exact_mod_cast Nat.zero_le _)
+  have h3 : 0 ≤ ((G.nodes.filter fun u => outCount G u == 0).map s).sum := by
+    apply List.sum_nonneg
+    intro x hx
+    obtain ⟨u, hu, rfl⟩ := List.mem_map.1 hx
+    exact hs u (List.mem_filter.1 hu).1
+  have h4 : 0 ≤ d * ((G.nodes.filter fun u => outCount G u == 0).map s).sum / (G.nodes.length : Rat) :=
+    div_nonneg (mul_nonneg hd0 h3) hn
+  have h5 := mul_nonneg hd0 h2
+  linarith
+
+/-- C15 [C] `pagerank_step_sum_one`: for distinct nodes, any damping, any neighbour lists (asymmetric,
+self loops, duplicates, labels outside the node set, dangling nodes), one iteration of the mirror
+maps scores summing to 1 to scores summing to 1. -/
+theorem pagerank_step_sum_one (G : Graph) (d : Rat) (s : Nat → Rat) (hn : G.nodes.Nodup)
+    (hne : G.nodes ≠ []) (hs : (G.nodes.map s).sum = 1) :
+    (G.nodes.map (prStep ratOps G d s)).sum = 1 := by
+  have hlen : (G.nodes.length : Rat) ≠ 0 := by
+    have : G.nodes.length ≠ 0 := fun h => hne (List.eq_nil_of_length_eq_zero h)
+    exact_mod_cast this
+  have hfun : prStep ratOps G d s = fun v =>
+      (1 - d) / (G.nodes.length : Rat)
+      + d * ((prIncoming G v).map fun u => s u / (outCount G u : Rat)).sum
+      + d * ((G.nodes.filter fun u => outCount G u == 0).map s).sum / (G.nodes.length : Rat) := by
+    funext v; exact prStep_rat G d s v
+  rw [hfun, sum_affine, rank_sum G hn (fun u => s u / (outCount G u : Rat))]
+  have hsplit := sum_split_zero G.nodes (outCount G) s
+  rw [hs] at hsplit
+  have e1 : (G.nodes.length : Rat) * ((1 - d) / (G.nodes.length : Rat)) = 1 - d := by field_simp
+  have e2 : (G.nodes.length : Rat) *
+      (d * ((G.nodes.filter fun u => outCount G u == 0).map s).sum / (G.nodes.length : Rat))
+      = d * ((G.nodes.filter fun u => outCount G u == 0).map s).sum := by field_simp
+  rw [e1, e2]
+  have : (G.nodes.map fun u => (outCount G u : Rat) * (s u / (outCount G u : Rat))).sum
+      = 1 - ((G.nodes.filter fun u => outCount G u == 0).map s).sum := by linarith
+  rw [this]; ring
+
+/-- non-vacuity: duplicate neighbour, self loop, a label outside the node set and a dangling node -/
+def exPR : Graph := ⟨[2, 0, 1], fun v => if v = 0 then [1, 1, 2, 7] else if v = 1 then [1, 0] else []⟩
+example : exPR.nodes.Nodup ∧ exPR.nodes ≠ [] ∧ (exPR.nodes.map fun _ => (1 : Rat) / 3).sum = 1 := by decide
+example : (exPR.nodes.map (prStep ratOps exPR (17 / 20) fun _ => 1 / 3)) = [101 / 360, 19 / 72, 41 / 90] := by
+  decide +kernel
+
+/-- C15 [S] `pagerank_contraction`: the iteration is a contraction in the L1 norm with factor
+`damping` (so for damping < 1 the damped PageRank equation has exactly one solution and the power
+iteration converges to it). -/
+theorem pagerank_contraction (G : Graph) (d : Rat) (x y : Nat → Rat) (hn : G.nodes.Nodup)
+    (hne : G.nodes ≠ []) (hd0 : 0 ≤ d) :
+    (G.nodes.map fun v => |prStep ratOps G d x v - prStep ratOps G d y v|).sum
+      ≤ d * (G.nodes.map fun v => |x v - y v|).sum := by
+  have hlen : (0 : Rat) < (G.nodes.length : Rat) := by
+    have : 0 < G.nodes.length := List.length_pos_of_ne_nil hne
+    exact_mod_cast this
+  -- pointwise bound
+  have hpt : ∀ v, |prStep ratOps G d x v - prStep ratOps G d y v| ≤
+      0 + d * ((prIncoming G v).map fun u => |x u - y u| / (outCount G u : Rat)).sum
+      + d * ((G.nodes.filter fun u => outCount G u == 0).map fun u => |x u - y u|).sum / (G.nodes.length : Rat) := by
+    intro v
+    rw [prStep_rat, prStep_rat]
+    have e : ∀ (l : List Nat) (f g : Nat → Rat), (l.map f).sum - (l.map g).sum = (l.map fun u => f u - g u).sum := by
+      intro l f g
+      induction l with
+      | nil => simp
+      | cons a l ih => simp only [List.map_cons, List.sum_cons, ← ih]; ring
+    have hrw : (1 - d) / (G.nodes.length : Rat)
+        + d * ((prIncoming G v).map fun u => x u / (outCount G u : Rat)).sum
+        + d * ((G.nodes.filter fun u => outCount G u == 0).map x).sum / (G.nodes.length : Rat)
+        - ((1 - d) / (G.nodes.length : Rat)
+        + d * ((prIncoming G v).map fun u => y u / (outCount G u : Rat)).sum
+        + d * ((G.nodes.filter fun u => outCount G u == 0).map y).sum / (G.nodes.length : Rat))
+        = d * ((prIncoming G v).map fun u => (x u - y u) / (outCount G u : Rat)).sum
+        + d * ((G.nodes.filter fun u => outCount G u == 0).map fun u => x u - y u).sum / (G.nodes.length : Rat) := by
+      rw [← e, ← e]
+      have : ∀ u, (x u - y u) / (outCount G u : Rat) = x u / (outCount G u : Rat) - y u / (outCount G u : Rat) :=
+        fun u => by ring
+      simp only [this]
+      rw [← e]; ring
+    rw [hrw]
+    have tri : ∀ (l : List Nat) (f : Nat → Rat), |(l.map f).sum| ≤ (l.map fun u => |f u|).sum := by
+      intro l f
+      induction l with
+      | nil => simp
+      | cons a l ih =>
+        simp only [List.map_cons, List.sum_cons]
+        exact (abs_add_le _ _).trans (by linarith)
+    have t1 := tri (prIncoming G v) (fun u => (x u - y u) / (outCount G u : Rat))
+    have t2 := tri (G.nodes.filter fun u => outCount G u == 0) (fun u => x u - y u)
+    have habs : ∀ u, |(x u - y u) / (outCount G u : Rat)| = |x u - y u| / (outCount G u : Rat) := by
+      intro u
+      rw [abs_div, abs_of_nonneg (by exact_mod_cast Nat.zero_le _ : (0 : Rat) ≤ (outCount G u : Rat))]
+    simp only [habs] at t1
+    calc |d * ((prIncoming G v).map fun u => (x u - y u) / (outCount G u : Rat)).sum
+          + d * ((G.nodes.filter fun u => outCount G u == 0).map fun u => x u - y u).sum / (G.nodes.length : Rat)|
+        ≤ |d * ((prIncoming G v).map fun u => (x u - y u) / (outCount G u : Rat)).sum|
+          + |d * ((G.nodes.filter fun u => outCount G u == 0).map fun u => x u - y u).sum / (G.nodes.length : Rat)| :=
+          abs_add_le _ _
+      _ = d * |((prIncoming G v).map fun u => (x u - y u) / (outCount G u : Rat)).sum|
+          + d * |((G.nodes.filter fun u => outCount G u == 0).map fun u => x u - y u).sum| / (G.nodes.length : Rat) := by
+          rw [abs_mul, abs_div, abs_mul, abs_of_nonneg hd0, abs_of_pos hlen]
+      _ ≤ _ := by
+          have a1 := mul_le_mul_of_nonneg_left t1 hd0
+          have a2 := div_le_div_of_nonneg_right (mul_le_mul_of_nonneg_left t2 hd0) (le_of_lt hlen)
+          linarith
+  have hsum : ∀ (l : List Nat) (f g : Nat → Rat), (∀ v, f v ≤ g v) → (l.map f).sum ≤ (l.map g).sum := by
+    intro l f g h
+    induction l with
+    | nil => simp
+    | cons a l ih => simp only [List.map_cons, List.sum_cons]; linarith [h a]
+  refine (hsum _ _ _ hpt).trans ?_
+  rw [sum_affine, rank_sum G hn (fun u => |x u - y u| / (outCount G u : Rat))]
+  have hsplit := sum_split_zero G.nodes (outCount G) (fun u => |x u - y u|)
+  have e2 : (G.nodes.length : Rat) *
+      (d * ((G.nodes.filter fun u => outCount G u == 0).map fun u => |x u - y u|).sum / (G.nodes.length : Rat))
+      = d * ((G.nodes.filter fun u => outCount G u == 0).map fun u => |x u - y u|).sum := by
+    field_simp
+  rw [e2, ← hsplit]
+  apply le_of_eq; ring
+
+/-- Consequence used by R_prop: when the stopping rule `max |new − old| < tol` fires (`new` = one
+step from `old`), `new` satisfies the damped PageRank equation within `damping · n · tol` at every node. -/
+theorem pagerank_residual_bound (G : Graph) (d tol : Rat) (old : Nat → Rat) (hn : G.nodes.Nodup)
+    (hd0 : 0 ≤ d) (hstop : ∀ v ∈ G.nodes, |prStep ratOps G d old v - old v| ≤ tol) :
+    ∀ v ∈ G.nodes, |prStep ratOps G d (prStep ratOps G d old) v - prStep ratOps G d old v|
+      ≤ d * ((G.nodes.length : Rat) * tol) := by
+  intro v hv
+  have hne : G.nodes ≠ [] := List.ne_nil_of_mem hv
+  have hc := pagerank_contraction G d (prStep ratOps G d old) old hn hne hd0
+  have hmem : ∀ (l : List Nat) (f : Nat → Rat), (∀ u, 0 ≤ f u) → ∀ u ∈ l, f u ≤ (l.map f).sum := by
+    intro l f hf
+    induction l with
+    | nil => intro u hu; cases hu
+    | cons a l ih =>
+      intro u hu
+      simp only [List.map_cons, List.sum_cons]
+      have hnn : 0 ≤ (l.map f).sum := List.sum_nonneg (by
+        intro z hz; obtain ⟨w, _, rfl⟩ := List.mem_map.1 hz; exact hf w)
+      rcases List.mem_cons.1 hu with rfl | hu
+      · linarith
+      · have := ih u hu; linarith [hf a]
+  have hle : ∀ (l : List Nat) (f : Nat → Rat) (c : Rat), (∀ u ∈ l, f u ≤ c) → (l.map f).sum ≤ (l.length : Rat) * c := by
+    intro l f c h
+    induction l with
+    | nil => simp
+    | cons a l ih =>
+      simp only [List.map_cons, List.sum_cons, List.length_cons]
+      have := ih (fun u hu => h u (List.mem_cons_of_mem _ hu))
+      have := h a List.mem_cons_self
+      push_cast; linarith
+  have h1 := hmem G.nodes (fun v => |prStep ratOps G d (prStep ratOps G d old) v - prStep ratOps G d old v|)
+    (fun u => abs_nonneg _) v hv
+  have h2 := hle G.nodes (fun v => |prStep ratOps G d old v - old v|) tol hstop
+  have h3 := mul_le_mul_of_nonneg_left h2 hd0
+  simp only at h1
+  linarith
+
+example : exPR.nodes.Nodup ∧ exPR.nodes ≠ [] ∧ (0 : Rat) ≤ 17 / 20 := by decide
 
 end Solvor.Net
